@@ -37,6 +37,7 @@ import PubgrubProofs.PSInvariant
 import PubgrubProofs.SatisfierTheory
 import PubgrubProofs.NoPanic
 import PubgrubProofs.NoPanicCex
+import PubgrubProofs.RangeAnyOrder
 
 namespace Pubgrub.C05
 open Pubgrub
@@ -122,5 +123,30 @@ theorem C05_outcomes_release (W : World P S V M) (hW : W.SetsValid)
     (∃ sel, req = .solution sel) ∨ (∃ t, req = .noSolution t) ∨ req = .fault .outOfFuel ∨
       (∃ m, req = .protocolError m) :=
   wellBehaved_outcomes_release W hW fuel root rv s req h hfin
+
+/-! ### `Range V` over ANY linear order (the discrete `u32`, `SemanticVersion` included), where `Range` is
+not a `LawfulVersionSet`: pulled back along the embedding into `Range (V ×ₗ ℚ)` (RangeHom, HomSolver,
+RangeAnyOrder) -/
+section AnyOrder
+variable {P V M Pr E : Type} [DecidableEq P] [LinearOrder V] [LE Pr] [DecidableLE Pr]
+
+theorem C05_range_no_panic (W : World P (Range V) V M) (hW : W.RangesWF) (debug : Bool) (fuel : Nat)
+    (root : P) (rv : V) (s : SolverState P (Range V) V M Pr) (site : String) :
+    ¬ Reachable (E := E) W debug fuel root rv (s, .fault (.panic site)) :=
+  range_no_panic W hW debug fuel root rv s site
+
+theorem C05_range_no_failure (W : World P (Range V) V M) (hW : W.RangesWF) (debug : Bool) (fuel : Nat)
+    (root : P) (rv : V) (s : SolverState P (Range V) V M Pr) (msg : String) :
+    ¬ ReachableWB (E := E) W debug fuel root rv (s, .failure msg) :=
+  range_no_failure W hW debug fuel root rv s msg
+
+theorem C05_range_outcomes (W : World P (Range V) V M) (hW : W.RangesWF) (debug : Bool) (fuel : Nat)
+    (root : P) (rv : V) (s : SolverState P (Range V) V M Pr) (req : Request P (Range V) V M Pr E)
+    (h : ReachableWB W debug fuel root rv (s, req)) (hfin : req.isFinal = true) :
+    (∃ sel, req = .solution sel) ∨ (∃ t, req = .noSolution t) ∨ req = .fault .outOfFuel ∨
+      (∃ m, req = .protocolError m) :=
+  range_outcomes W hW debug fuel root rv s req h hfin
+
+end AnyOrder
 
 end Pubgrub.C05
